@@ -73,7 +73,7 @@ Tables ==
     [] Mode = "regexpos" ->
          \* the byte-identical regex token at different segment positions; a regex with its own group
          {<<Svc(root, rs)>> : root \in {"/r", "/{w:(cats|dogs)}"},
-            rs \in RouteSeqs(Routes1({"/{n:[0-9]+}/{y}", "/{y}/{n:[0-9]+}", "/{n:[0-9]+}", "/{k:(cats|dogs)}/{y}"}, {"GET", "DELETE"}), 2)}
+            rs \in RouteSeqs(Routes1({"/{n:[0-9]+}/{y}", "/{y}/{n:[0-9]+}", "/{k:(cats|dogs)}/{y}"}, {"GET", "DELETE"}), 2)}
     [] Mode = "media" ->
          \* a literal and a variable route of one method with different Produces (ranking must not follow Accept)
          LET ps == {<<JSONM>>, <<XMLM>>, <<XMLM, JSONM>>} IN
